@@ -1130,6 +1130,29 @@ func checkIdentifierScan(c *Ctx, u *Universe) {
 				missing = append(missing, t)
 			}
 		}
+		// '/' may occur inside a name, so the scanner must stop before every token that starts with '/': the two
+		// comment starts and the /= operator
+		slashNext := map[rune]bool{}
+		ast.Inspect(fd.Body, func(n ast.Node) bool {
+			call, ok := n.(*ast.CallExpr)
+			if !ok || len(call.Args) != 2 {
+				return true
+			}
+			f := calleeFunc(p.TypesInfo, call)
+			if f == nil || f.Name() != "ContainsRune" {
+				return true
+			}
+			if inner, ok := ast.Unparen(call.Args[0]).(*ast.CallExpr); ok && funcID(calleeFunc(p.TypesInfo, inner)) == "pkg/syntax.Lexer.Peek" {
+				if list, ok := pe.constList(call.Args[1]); ok {
+					for _, v := range list {
+						slashNext[rune(v)] = true
+					}
+				}
+			}
+			return true
+		})
+		R.check(slashNext['/'] && slashNext['*'] && slashNext['='], "C04.ident", "parseIdentifier:slash-tokens", pos,
+			"a '/' followed by '/', '*' or '=' ends the identifier (comment starts and the /= operator)", "the identifier scanner no longer stops before every token that starts with '/' (//, /*, /=): the '/' is swallowed by the name and e.g. 甲/=10 is not tokenised as documented")
 		R.check(found && len(missing) == 0, "C04.ident", "parseIdentifier:terminator-set", pos,
 			"terminator set contains EOF, CR, LF, & @ # = < > | and all punctuation", "terminator set misses "+strings.Join(missing, " "))
 	}
